@@ -521,6 +521,28 @@ def value_level(ctx, starts):
                 ctx.broken("correspondence:%s model!=impl for %r: model %r impl %r" % (what, key, model, impl))
             ctx.case("%s:%r" % (what, key), nontrivial=False, agreed=ok)
             ctx.stat(what + "_compared")
+    # --- from_dict round trip on the implementation for scalar kinds the model's value type does not have (bytes, float, ...):
+    #     "nested dicts (non-empty) of scalars and lists" - same class shape as dict_ok, wider scalars
+    import random as _random
+    rng2 = _random.Random(ctx.seed * 31 + 5)
+    SC = [b"ab", b"", 1.5, 0.0, -2, 0, "", "x", "two words", True, False, None]
+
+    def rnd(depth):
+        if depth > 0 and rng2.random() < 0.4:
+            return {k: rnd(depth - 1) for k in rng2.sample(["a", "b", "c", "dd"], rng2.randint(1, 3))}
+        if rng2.random() < 0.3:
+            return [rng2.choice(SC) for _ in range(rng2.randint(0, 3))]
+        return rng2.choice(SC)
+    fixed = [{"blob": b"ab"}, {"a": {"b": b""}}, {"f": 1.5, "l": [b"x", 2.5]}, {"a": [b"ab"]}]
+    for i in range(len(fixed) + (150 if not ctx.thorough else 1500)):
+        dct = fixed[i] if i < len(fixed) else {k: rnd(2) for k in rng2.sample(["a", "b", "c", "dd", "e"], rng2.randint(0, 4))}
+        try:
+            back = PR.from_dict(dct).as_dict()
+        except Exception as e:
+            back = "raises %s: %s" % (type(e).__name__, e)
+        ctx.stat("from_dict_wide_scalars")
+        if back != dct or repr(back) != repr(dct):
+            ctx.violation("from_dict-wide:%r" % (dct,), "ParseResults.from_dict(%r).as_dict() = %r" % (dct, back), {"kind": "from_dict_py", "d": repr(dct)})
     # --- monoid laws on the implementation (views)
     pool = [K.P_PLAIN, K.P_NAMED, K.P_NESTED, K.P_EMPTY] + [C.canon(starts[s]()) for s in ("seq_names", "groups", "dict")]
     V = lambda x: C.norm(C.vcanon(C.canon(x)))
@@ -626,6 +648,12 @@ def replay(ctx, obj):
         x, y = ((a + b) + c)['x'], (a + (b + c))['x']
         print("((a+b)+c)['x'] = %r ; (a+(b+c))['x'] = %r" % (x, y))
         return C.canon(x) == C.canon(y)
+    if r.get("kind") == "from_dict_py":
+        PR = C.PRcls()
+        dct = eval(r["d"], {})
+        back = PR.from_dict(dct).as_dict()
+        print(back)
+        return back == dct and repr(back) == repr(dct)
     if r.get("kind") == "concat-operand":
         print("re-run `./check C11`: the scenario %r is regenerated by value_level()" % (r,))
         return False
